@@ -640,7 +640,208 @@ Proof.
   intros Hwf Hn Hr. apply remains_clean_both in Hr. rewrite (resolve_deep _ _ Hwf Hn) in Hr. discriminate.
 Qed.
 
+(* ------------------------------------------------------------------ the computing relation is sound *)
+(* what the monitor evaluates on the implementation's result (rty_b, rop_b) implies the relation of the
+   specification; needs the decidable equalities to be equalities *)
+Definition leq {A B} (f : A -> B -> bool) : list A -> list B -> bool :=
+  fix go (l : list A) (m : list B) : bool :=
+    match l, m with [], [] => true | x :: r, y :: s => f x y && go r s | _, _ => false end.
+Lemma leq_Forall2 {A B} (f : A -> B -> bool) (R : A -> B -> Prop) l :
+  Forall (fun x => forall y, f x y = true -> R x y) l -> forall m, leq f l m = true -> Forall2 R l m.
+Proof.
+  induction 1 as [|x l Hx _ IH]; intros [|y m]; cbn; try discriminate; [constructor|].
+  intros H. apply andb_true_iff in H as [H1 H2]. constructor; auto.
+Qed.
+Lemma leq_eq {A} (f : A -> A -> bool) l :
+  Forall (fun x => forall y, f x y = true -> x = y) l -> forall m, leq f l m = true -> l = m.
+Proof.
+  intros H m Hm. pose proof (leq_Forall2 f eq l H m Hm) as H2. clear -H2. induction H2; congruence.
+Qed.
+Lemma list_eqb_leq {A} (f : A -> A -> bool) l m : list_eqb f l m = leq f l m.
+Proof. revert m. induction l as [|x l IH]; intros [|y m]; cbn; try reflexivity. now rewrite IH. Qed.
+Lemma names_eqb_eq (a b : list name) : list_eqb N.eqb a b = true -> a = b.
+Proof. destruct (list_eqb_spec N.eqb N.eqb_spec a b); [auto|discriminate]. Qed.
+Lemma bound_eqb_eq a b : bound_eqb a b = true -> a = b.
+Proof. destruct a, b; cbn; congruence. Qed.
+
+Section TPInd.
+  Variable P : typaram -> Prop.
+  Hypothesis HType : forall b, P (PType b).
+  Hypothesis HNat : forall ub, P (PNat ub).
+  Hypothesis HString : P PString.
+  Hypothesis HList : forall p, P p -> P (PList p).
+  Hypothesis HTuple : forall ps, Forall P ps -> P (PTuple ps).
+  Hypothesis HExts : P PExts.
+  Fixpoint typaram_ind2 (p : typaram) : P p :=
+    match p with
+    | PType b => HType b
+    | PNat ub => HNat ub
+    | PString => HString
+    | PList q => HList q (typaram_ind2 q)
+    | PTuple ps =>
+        HTuple ps ((fix go (l : list typaram) : Forall P l :=
+                      match l with [] => Forall_nil _ | x :: r => Forall_cons x (typaram_ind2 x) (go r) end) ps)
+    | PExts => HExts
+    end.
+End TPInd.
+Lemma typaram_eqb_eq a : forall b, typaram_eqb a b = true -> a = b.
+Proof.
+  induction a using typaram_ind2; intros [] Hb; cbn in Hb; try discriminate; try reflexivity.
+  - f_equal. now apply bound_eqb_eq.
+  - destruct ub as [x|], ub0 as [y|]; cbn in Hb; try discriminate; [|reflexivity].
+    apply N.eqb_eq in Hb. congruence.
+  - f_equal. auto.
+  - f_equal. eapply leq_eq; eauto.
+Qed.
+Lemma typarams_eqb_eq a b : list_eqb typaram_eqb a b = true -> a = b.
+Proof.
+  rewrite list_eqb_leq. apply leq_eq. apply Forall_forall. intros x _ y. apply typaram_eqb_eq.
+Qed.
+Lemma typedef_eqb_eq a b : typedef_eqb a b = true -> a = b.
+Proof.
+  destruct a as [e n ds ps bd], b as [e' n' ds' ps' bd']. unfold typedef_eqb. cbn.
+  intros H. apply andb_true_iff in H as [H Hb]. apply andb_true_iff in H as [H Hp].
+  apply andb_true_iff in H as [H Hd]. apply andb_true_iff in H as [He Hn].
+  apply N.eqb_eq in He, Hn, Hd. apply typarams_eqb_eq in Hp. subst. f_equal.
+  destruct bd as [x|x], bd' as [y|y]; cbn in Hb; try discriminate.
+  - f_equal. now apply bound_eqb_eq.
+  - f_equal. destruct (list_eqb_spec Nat.eqb Nat.eqb_spec x y); [auto|discriminate].
+Qed.
+Lemma extclass_eqb_eq a b : extclass_eqb a b = true -> a = b.
+Proof. destruct a, b; cbn; try discriminate; auto. intros H. apply Nat.eqb_eq in H. congruence. Qed.
+
+(* introduces the induction hypotheses of a case, stopping at the quantified second operand *)
+Ltac intro_case :=
+  repeat lazymatch goal with
+         | |- forall b, ?f b = true -> _ => fail
+         | |- forall _, _ => intro
+         end.
+Lemma ty_eqb_eq_both :
+  (forall a b, ty_eqb a b = true -> a = b) /\ (forall a b, tyarg_eqb a b = true -> a = b).
+Proof.
+  apply ty_both_ind; intro_case; intros yy Hb; destruct yy; cbn in Hb; try discriminate Hb; try reflexivity.
+  - f_equal. eapply leq_eq; [|exact Hb]. eapply Forall_impl; [|exact H]. intros row Hrow y. now apply leq_eq.
+  - apply Nat.eqb_eq in Hb. congruence.
+  - apply andb_true_iff in Hb as [H1 H2]. apply Nat.eqb_eq in H1. apply bound_eqb_eq in H2. congruence.
+  - apply andb_true_iff in Hb as [H1 H2]. apply Nat.eqb_eq in H1. apply bound_eqb_eq in H2. congruence.
+  - apply andb_true_iff in Hb as [H1 H2]. apply N.eqb_eq in H1. apply bound_eqb_eq in H2. congruence.
+  - apply andb_true_iff in Hb as [Hb Hr]. apply andb_true_iff in Hb as [Hi Ho].
+    apply names_eqb_eq in Hr. f_equal; auto; eapply leq_eq; eauto.
+  - apply andb_true_iff in Hb as [Hb Hr]. apply andb_true_iff in Hb as [Hb Ho]. apply andb_true_iff in Hb as [Hp Hi].
+    apply names_eqb_eq in Hr. apply typarams_eqb_eq in Hp. f_equal; auto; eapply leq_eq; eauto.
+  - apply andb_true_iff in Hb as [Hb Hbd]. apply andb_true_iff in Hb as [Hb Ha]. apply andb_true_iff in Hb as [He Hi].
+    apply N.eqb_eq in He, Hi. apply bound_eqb_eq in Hbd. f_equal; auto. eapply leq_eq; eauto.
+  - apply andb_true_iff in Hb as [Hb Hc]. apply andb_true_iff in Hb as [Hd Ha].
+    apply typedef_eqb_eq in Hd. apply extclass_eqb_eq in Hc. f_equal; auto. eapply leq_eq; eauto.
+  - f_equal. auto.
+  - apply N.eqb_eq in Hb. congruence.
+  - apply N.eqb_eq in Hb. congruence.
+  - f_equal. eapply leq_eq; eauto.
+  - f_equal. now apply names_eqb_eq.
+  - apply andb_true_iff in Hb as [H1 H2]. apply Nat.eqb_eq in H1. apply typaram_eqb_eq in H2. congruence.
+Qed.
+Lemma ty_eqb_eq a b : ty_eqb a b = true -> a = b.
+Proof. apply ty_eqb_eq_both. Qed.
+Lemma tyarg_eqb_eq a b : tyarg_eqb a b = true -> a = b.
+Proof. apply ty_eqb_eq_both. Qed.
+Lemma mem_In {A} (eqb : A -> A -> bool) x l :
+  (forall a b, eqb a b = true -> a = b) -> mem eqb x l = true -> In x l.
+Proof.
+  intros He. induction l as [|y l IH]; cbn; [discriminate|]. intros H. apply orb_true_iff in H as [H|H].
+  - left. symmetry. now apply He.
+  - right. auto.
+Qed.
+
+Lemma rty_b_sound_both reg :
+  (forall t t', rty_b reg t t' = true -> RTy reg t t') /\ (forall a a', rarg_b reg a a' = true -> RArg reg a a').
+Proof.
+  apply ty_both_ind; intro_case; intros yy Hb; destruct yy;
+    try (match type of Hb with
+         | rty_b _ ?t ?t' = true => change (ty_eqb t t' = true) in Hb; apply ty_eqb_eq in Hb
+         | rarg_b _ ?t ?t' = true => change (tyarg_eqb t t' = true) in Hb; apply tyarg_eqb_eq in Hb
+         end; try rewrite <- Hb; constructor; fail);
+    cbn in Hb; try discriminate Hb.
+  - constructor. eapply leq_Forall2; [|exact Hb]. eapply Forall_impl; [|exact H].
+    intros row Hrow y. now apply leq_Forall2.
+  - apply andb_true_iff in Hb as [Hb Hr]. apply andb_true_iff in Hb as [Hi Ho]. apply names_eqb_eq in Hr. subst.
+    constructor; eapply leq_Forall2; eauto.
+  - apply andb_true_iff in Hb as [Hb Hr]. apply andb_true_iff in Hb as [Hb Ho]. apply andb_true_iff in Hb as [Hp Hi].
+    apply names_eqb_eq in Hr. apply typarams_eqb_eq in Hp. subst. constructor; eapply leq_Forall2; eauto.
+  - apply andb_true_iff in Hb as [Hb Ha]. apply andb_true_iff in Hb as [Hb Hbd]. apply andb_true_iff in Hb as [Hb Hi].
+    apply andb_true_iff in Hb as [Hn He]. apply N.eqb_eq in He, Hi. apply bound_eqb_eq in Hbd. subst.
+    apply ROpaqueUndef; [|eapply leq_Forall2; eauto].
+    intros Hr. apply resolvable_ty_b_spec in Hr. rewrite Hr in Hn. discriminate.
+  - apply andb_true_iff in Hb as [Hb Ha]. apply andb_true_iff in Hb as [Hm Hc].
+    apply extclass_eqb_eq in Hc. subst. apply ROpaqueDef; [|eapply leq_Forall2; eauto].
+    apply In_defs_ty. eapply mem_In; [|exact Hm]. apply typedef_eqb_eq.
+  - constructor. auto.
+  - constructor. eapply leq_Forall2; eauto.
+Qed.
+Lemma rty_b_sound reg t t' : rty_b reg t t' = true -> RTy reg t t'.
+Proof. apply rty_b_sound_both. Qed.
+Lemma rarg_b_sound reg a a' : rarg_b reg a a' = true -> RArg reg a a'.
+Proof. apply rty_b_sound_both. Qed.
+
+Lemma tys_eqb_eq a b : list_eqb ty_eqb a b = true -> a = b.
+Proof. rewrite list_eqb_leq. apply leq_eq, Forall_forall. intros x _ y. apply ty_eqb_eq. Qed.
+Lemma tyargs_eqb_eq a b : list_eqb tyarg_eqb a b = true -> a = b.
+Proof. rewrite list_eqb_leq. apply leq_eq, Forall_forall. intros x _ y. apply tyarg_eqb_eq. Qed.
+Lemma ft_eqb_eq a b : ft_eqb a b = true -> a = b.
+Proof.
+  destruct a, b. unfold ft_eqb. cbn. intros H. apply andb_true_iff in H as [H Hr]. apply andb_true_iff in H as [Hi Ho].
+  apply tys_eqb_eq in Hi, Ho. apply names_eqb_eq in Hr. congruence.
+Qed.
+Lemma opdef_eqb_eq a b : opdef_eqb a b = true -> a = b.
+Proof.
+  destruct a, b. unfold opdef_eqb. cbn. intros H. apply andb_true_iff in H as [H Hd]. apply andb_true_iff in H as [He Hn].
+  apply N.eqb_eq in He, Hn, Hd. congruence.
+Qed.
+Lemma custom_eqb_eq a b : custom_eqb a b = true -> a = b.
+Proof.
+  destruct a, b. unfold custom_eqb. cbn. intros H. apply andb_true_iff in H as [H Ha]. apply andb_true_iff in H as [H Hd].
+  apply andb_true_iff in H as [H Hs]. apply andb_true_iff in H as [He Hn].
+  apply N.eqb_eq in He, Hn, Hd. apply ft_eqb_eq in Hs. apply tyargs_eqb_eq in Ha. congruence.
+Qed.
+Lemma op_eqb_eq a b : op_eqb a b = true -> a = b.
+Proof.
+  destruct a as [c|x|k], b as [c'|x'|k']; cbn; try discriminate; intros H.
+  - f_equal. now apply custom_eqb_eq.
+  - destruct x, x'. cbn in H. apply andb_true_iff in H as [H Ha]. apply andb_true_iff in H as [Hd Hs].
+    apply opdef_eqb_eq in Hd. apply ft_eqb_eq in Hs. apply tyargs_eqb_eq in Ha. congruence.
+  - apply N.eqb_eq in H. congruence.
+Qed.
+Lemma rtys_b_sound reg l m : list_eqb (rty_b reg) l m = true -> Forall2 (RTy reg) l m.
+Proof.
+  revert m. induction l as [|x l IH]; intros [|y m]; cbn; try discriminate; [constructor|].
+  intros H. apply andb_true_iff in H as [H1 H2]. constructor; [now apply rty_b_sound|auto].
+Qed.
+Lemma rop_b_sound reg o o' : rop_b reg o o' = true -> ROp reg o o'.
+Proof.
+  destruct o as [c|x|k], o' as [c'|x'|k']; cbn; try discriminate; intros H;
+    try (match goal with |- ROp _ ?a ?b => apply (op_eqb_eq a b) in H end; rewrite <- H; constructor; fail).
+  - apply andb_true_iff in H as [Hn He]. apply custom_eqb_eq in He. subst. constructor.
+    intros Hr. apply resolvable_op_b_spec in Hr. rewrite Hr in Hn. discriminate.
+  - destruct x' as [d s a]. cbn in H. apply andb_true_iff in H as [H Ha]. apply andb_true_iff in H as [Hm Hs].
+    constructor.
+    + apply In_defs_op. eapply mem_In; [|exact Hm]. apply opdef_eqb_eq.
+    + unfold rft_b in Hs. apply andb_true_iff in Hs as [Hs Hr]. apply andb_true_iff in Hs as [Hi Ho].
+      apply names_eqb_eq in Hr. repeat split; [now apply rtys_b_sound|now apply rtys_b_sound|exact Hr].
+    + clear -Ha. revert a Ha. induction (c_args c) as [|x l IH]; intros [|y m]; cbn; try discriminate; [constructor|].
+      intros H. apply andb_true_iff in H as [H1 H2]. constructor; [now apply rarg_b_sound|auto].
+Qed.
+
 (* ------------------------------------------------------------------ the property-level statements *)
+Lemma monitor_relation_sound reg :
+  (forall t t', rty_b reg t t' = true -> RTy reg t t') /\ (forall a a', rarg_b reg a a' = true -> RArg reg a a') /\
+  (forall o o', rop_b reg o o' = true -> ROp reg o o') /\ (regwf_b reg = true -> RegWF reg).
+Proof.
+  split; [|split; [|split]]; intros.
+  - now apply rty_b_sound.
+  - now apply rarg_b_sound.
+  - now apply rop_b_sound.
+  - now apply regwf_b_sound.
+Qed.
+
 Lemma resolve_exactly_when_defined_thm : forall reg, RegWF reg ->
   (forall e id args b,
      ((exists d, defines_ty reg e id d /\
